@@ -24,7 +24,7 @@ add("C02", "exploration", "long-double reference oracle on every solve_for_psi_s
     "The documented static method is called on ~1e6 generated site-cases spanning the input space (exact zeros, tiny/large |psi|, gamma=0, ten decades of dt, random sparse and mesh Laplacians) and on every call made by full simulations; a long-double evaluation of the documentation's equations decides answered/refused, the quadratic's backward error, psi'+z|psi'|^2=w, |psi'|^2 consistency and the branch. In situ the arguments of every call are tied to the state handed to update() (psi^n, |psi^n|^2, mu^n bit-equal / 1e-13, epsilon(t^n), the layer's gamma and u) and the step reported by update() to the accepted solve.",
     "80-bit long double as reference; decision band 1e-9 of the discriminant's terms; overflowing inputs skipped", "DESIGN.md 4/C02")
 add("C05", "exploration", "reference model (executable run specification) over recorded update/save traces, checked on the HDF5 file and the loaded Solution",
-    "From the dt sequence actually returned by update the model derives the final step, the frame set, frame times and per-step records; every frame's datasets must hash-equal the state after exactly s updates, records must appear once and in order, Solution.times/dynamics must agree, also after selecting another frame (solve_step / from_hdf5(solve_step=)); steps down to 1e-12. Thorough enumerates k=1..N+2, N=0..12 x fixed/adaptive(with retries) x thermalisation x probes (exhaustive within that bound).",
+    "From the dt sequence actually returned by update the model derives the final step, the frame set, frame times and per-step records; every frame's datasets must hash-equal the state after exactly s updates, records must appear once and in order, Solution.times/dynamics must agree, also after selecting another frame (solve_step / from_hdf5(solve_step=)); steps down to 1e-12. Runs with the live monitor requested (refresh interval always elapsed) keep the same frame set. Thorough enumerates k=1..N+2, N=0..12 x fixed/adaptive(with retries) x thermalisation x probes (exhaustive within that bound).",
     "hooks observe the values returned by TDGLSolver.update; sha256 hashes of array bytes", "DESIGN.md 4/C05")
 add("C06", "exploration", "online pin monitor (exact value on terminal sites, identity-row structure, free-update oracle on all other sites) + differential run",
     "At every update return and saved frame psi on terminal sites must equal terminal_psi exactly, pinned Laplacian rows must be exactly the terminal sites, and every non-pinned site must follow the free TDGL update computed by the long-double oracle with an independently rebuilt Laplacian; unpinned terminals with zero current must reproduce the terminal-free run bit for bit. Histories: runs continued from seeds holding other terminal values; one Device solved, moved in place (translate / translation()), solved again and moved back, terminal sites re-derived from the polygons' current vertices each time; Corbino geometry (terminal on a hole's rim); re-meshed devices; one options object used on two devices (solve() may not change the caller's options).",
@@ -52,13 +52,13 @@ add("C07", "exploration", "geometric postconditions on Device.make_mesh against 
     "Every triangle (orientation, tiling area, containment), boundary site/edge (on outlines, exactly), Euler characteristic, edge vectors/lengths/centres, and - where the triangulation is locally Delaunay with unencroached boundary and an unambiguous one-piece cell - every cell area and dual edge length against half-plane-clipped Voronoi cells intersected with the domain polygon; terminal edges/sites/length against the boundary covered by the terminal polygon. Also after re-meshing, in-place translation, hdf5 round trip and smoothing of a copy; devices up to 3e5 coherence lengths from the origin (oracle in centroid-relative coordinates, conditioning-aware gates); second-hand hole polygons (mesh=False).",
     "shapely for polygon intersection/area/length; skipped (ineligible) sites counted with reasons", "DESIGN.md 4/C07")
 add("C08", "exploration", "differential runs of one physical problem stated in two unit systems + CODATA flux-quantum identity per triangle",
-    "The same physical problem (device, field, currents) is restated in another unit system on the same dimensionless mesh and run; dimensionless states at every update, dt sequences, physical current density, vector potential and field at fixed physical points must agree; A_scale/Bc2/A0/K0 are compared with CODATA-based values and the link phase around every mesh triangle must equal 2 pi flux / Phi_0. Pairs are also moved in place after meshing, have z0 != 0, terminals stated in mm, loop drives in other current units; asking for a field twice may not change it or the currents.",
+    "The same physical problem (device, field, currents) is restated in another unit system on the same dimensionless mesh and run; dimensionless states at every update, dt sequences, physical current density, vector potential and field at fixed physical points must agree; A_scale/Bc2/A0/K0 are compared with CODATA-based values and the link phase around every mesh triangle must equal 2 pi flux / Phi_0. Pairs are also moved in place after meshing, have z0 != 0, terminals stated in mm, loop drives in other current units; asking for a field twice may not change it or the currents; ONE options object edited between the two statements (the finished first solution keeps answering in its own units); whole-number integer-typed evaluation points with a constant non-integer height.",
     "runs kept inside the stability bound; CODATA 2018; gate 1e-7", "DESIGN.md 4/C08")
 add("C09", "exploration", "differential execution across schedules: fresh processes x thread counts x hash seeds x output locations, digest comparison",
-    "Each configuration runs in fresh processes under NUMBA_NUM_THREADS 1..16, BLAS threads, PYTHONHASHSEED 0/1/random, file/temp output, other cwd, repeated; sha256 digests of mesh arrays, every update state, recorded frames/attrs/records and dt sequences must all coincide. Digests also cover the returned Solution; output location may be an already occupied file name. In-process: NaN-poisoned kernel buffer fully overwritten; global numpy RNG untouched; the same seeded simulation run twice from one in-memory seed and once from the re-loaded seed must coincide and leave the seed untouched; X on a Device (or with an options object) that was used before must equal X on freshly built ones.",
+    "Each configuration runs in fresh processes under NUMBA_NUM_THREADS 1..16, BLAS threads, PYTHONHASHSEED 0/1/random, file/temp output, other cwd, repeated; sha256 digests of mesh arrays, every update state, recorded frames/attrs/records and dt sequences must all coincide. Digests also cover the returned Solution; output location may be an already occupied file name. In-process: NaN-poisoned kernel buffer fully overwritten; global numpy RNG untouched; the same seeded simulation run twice from one in-memory seed and once from the re-loaded seed must coincide and leave the seed untouched; X on a Device (or with an options object, or a caller-held time-dependent Parameter that was meanwhile mentioned in an expression) that was used before must equal X on freshly built ones. Configurations include callable currents with a pulse covering 0.67 % of the run and a requested live monitor (wall-clock refresh interval far below the run time; plotting process not started).",
     "one machine / one numba build; a race is visible only as a differing result", "DESIGN.md 4/C09")
 add("C11", "exploration", "differential runs across recording configurations and across every split point of a resumed run",
-    "One physics input under 7-9 recording configurations (save_every, file/temp, probes, progress reporting): frames with the same step label bit-identical, update-state and dt sequences identical. Fixed-step static runs split at N1+N2 and resumed from the reloaded Solution must reproduce the uninterrupted frames bit for bit, with and without screening; per-step records equal across recording configurations; the seed is looked at (all plots / derived quantities) before the resume and must be unchanged.",
+    "One physics input under 7-9 recording configurations (save_every, file/temp, probes, progress reporting): frames with the same step label bit-identical, update-state and dt sequences identical. Fixed-step static runs split at N1+N2 and resumed from the reloaded Solution must reproduce the uninterrupted frames bit for bit, with and without screening; per-step records equal across recording configurations; the seed is looked at (all plots / derived quantities) before the resume and must be unchanged. Resume variants whose drive changes before the split and is constant afterwards (field ramped then held, soft-started currents), continued as the static value and as the same object shifted by T1; a thermalised observe case.",
     "sha256 of dataset bytes", "DESIGN.md 4/C11")
 add("C14", "exploration", "round-trip differential on objects (hdf5, pickle, copy) with field-by-field comparison and behavioural equivalence",
     "Devices (hdf5 with/without mesh, pickle, copy; mesh full/compressed/from_triangulation), Solutions (in place / copy; every option incl. None-valued; every recorded step; dynamics; drives evaluated at random points/times) and composite parameters carried through a Solution file are written and read back with the real functions and compared bit-wise; reloaded devices must solve identically; memory-only solutions incl. a second generation; relative output paths; Constant leaves.",
@@ -67,7 +67,7 @@ add("C15", "fault_enumeration", "fault injection at every (stage, step, hook poi
     "For every step 0..N and both stages RuntimeError/KeyboardInterrupt are injected at update entry/exit, save entry/middle(each dataset)/exit; explicit path or temp; pre-existing files; pause answers. Audit: output reopens r and r+, frames == completed saves and pass the C05 checker as a prefix, no .tmp/tempdir/stray file, pre-existing files byte-identical, error propagates / cancellation returns a usable partial solution. Faults inside the arithmetic of solve_for_psi_squared, Ctrl-C twice, faults in the MIDDLE of update() (n-th observables / kernel call) with screening; seven sets of pre-existing files. Thorough adds statement-level failpoints in _run_stage, save_time_step, __enter__, close, _create_output_file.",
     "faults inside h5py's C code not modelled; exhaustive within the listed (case, step, point, exception) grid", "DESIGN.md 4/C15")
 add("C18", "exploration", "postconditions on polygon/device operations against a winding-number membership oracle, shoelace areas and byte-level aliasing checks",
-    "Random boxes/circles/ellipses (any vertex count, orientation, centre, scale over four decades): stored points closed+CCW, set operations (methods, operators, classmethods) vs membership of operands at probe points away from outlines, inclusion-exclusion, affine transforms (areas, mapped points, mapped vertices, reflections), inplace/non-inplace/copy aliasing (incl. the layer), Device.contains_points vs film-and-not-holes, Device-level transforms, translation() left by an exception, meshed devices moved in place, finely sampled outlines far from the origin.",
+    "Random boxes/circles/ellipses (any vertex count, orientation, centre, scale over four decades): stored points closed+CCW, set operations (methods, operators, classmethods) vs membership of operands at probe points away from outlines, inclusion-exclusion, affine transforms (areas, mapped points, mapped vertices, reflections), inplace/non-inplace/copy aliasing (incl. the layer), Device.contains_points vs film-and-not-holes, Device-level transforms, translation() left by an exception, meshed devices moved in place (a copy taken before never moves along, and vice versa), finely sampled outlines far from the origin.",
     "probe points closer than 1e-6 (relative) to an outline are not judged", "DESIGN.md 4/C18")
 add("C19", "fault_enumeration", "negative enumeration of ill-posed inputs with filesystem / temp-dir / hook watch",
     "Each member of 58 ill-posed classes (incl. options edited after construction, a terminal moved off the boundary after a first solve, seeds from devices with fewer terminals / holes) (magnitudes from gross to 1e-6; with/without output path) must raise, and afterwards: output directory empty, no TemporaryDirectory created, DataHandler never entered, update never called.",
